@@ -38,6 +38,7 @@ func main() {
 		matrixStage(r, false)
 		rotationStage(r)
 		solverStage(r, false)
+		bicgStage(r, false)
 		polyStage(r, false)
 		searchStage(r, false)
 		angleStage(r)
@@ -45,7 +46,7 @@ func main() {
 		r.Finish()
 	}
 	r.Isolate("matrices", func() { matrixStage(r, full); rotationStage(r) })
-	r.Isolate("solvers", func() { solverStage(r, full) })
+	r.Isolate("solvers", func() { solverStage(r, full); bicgStage(r, full) })
 	r.Isolate("polynomials", func() { polyStage(r, full) })
 	r.Isolate("searches", func() { searchStage(r, full); angleStage(r) })
 	r.Isolate("curves", func() { curveStage(r, full) })
